@@ -74,7 +74,7 @@ def gen_history(rng):
             for v in vs:
                 v[1] += 40
     final_t = vs[-1][0] + vs[-1][1] + vs[-1][2]
-    pev_last = rng.choice([100, 100, 93, 80, 57.5, 99.9, 0, 12])
+    pev_last = rng.choice([100, 100, 93, 80, 57.5, 99.9, 0, 12, 104, 117.5, 130])  # a unit can finish above its expected vote
     rows = []
     for d, g, o in vs:
         t = d + g + o
